@@ -28,6 +28,7 @@ RULE += (' ' + 'Also varied: tables that start or end exactly at 0.55 micron, ta
 RULE += (' ' + 'The table is edited in place after from_table / to_table; the same numbers are asked for in mm / nm right after another unit.')
 RULE += (' ' + 'from_file is called with keyword arguments, with positional arguments in the documented order, or with the documented defaults left out.')
 RULE += (' ' + 'The queries are also handed over as whole numbers (integer dtype) of the query unit.')
+RULE += (' ' + 'Rows of the generated law files may carry # remarks, and a column that is not read may hold labels.')
 ASSUMPTIONS = [
     'tolerance 1e-12 relative (unit conversions round to ~1e-16); exactly -0.4 at 0.55 micron within 1e-12',
     'a query on an END node expressed in a different unit than the table may round to either side of the boundary: '
@@ -80,7 +81,9 @@ def cases(draw, max_rows=40):
             'file_wav_unit': draw(st.sampled_from(['um', 'nm', 'AA'])), 'file_chi_unit': draw(st.sampled_from(['cm2/g', 'm2/kg'])),
             # from_file(filename, columns, wav_unit, chi_unit): arguments by keyword, by position, or left out where the
             # documented default says the same
-            'file_call': draw(st.sampled_from(['keywords', 'positional', 'positional_wav', 'defaults']))}
+            'file_call': draw(st.sampled_from(['keywords', 'positional', 'positional_wav', 'defaults'])),
+            # annotations a tabulated law may carry: remarks after '#' on its rows, a label in a column that is not read
+            'file_notes': draw(st.sampled_from(['none', 'none', 'remark_first_rows', 'remark_every_row', 'label_column']))}
 
 
 PLAIN = {'um': 1., 'nm': 1e3, 'cm': 1e-4, 'm': 1e-6, 'AA': 1e4}
@@ -246,7 +249,15 @@ def run_case(case, ctx):
                 cols = ['%r' % (1000. + i * 3.5 + j) for j in range(case['file_cols'])]
                 cols[case['file_wav_col']] = repr(w * fw)
                 cols[case['file_chi_col']] = repr(c * fc)
-                f.write(' '.join(cols) + '\n')
+                notes = case.get('file_notes', 'none')
+                if notes == 'label_column' and case['file_cols'] > 2:
+                    # one of the columns that are not read is a label
+                    spare = [j for j in range(case['file_cols']) if j not in (case['file_wav_col'], case['file_chi_col'])]
+                    cols[spare[-1]] = 'band%d' % i
+                line = ' '.join(cols)
+                if notes == 'remark_every_row' or (notes == 'remark_first_rows' and i < 4):
+                    line += '   # ' + ['U', 'B', 'V', 'R'][i % 4]
+                f.write(line + '\n')
         with must_succeed('Extinction.from_file'):
             kw = {}
             columns = (case['file_wav_col'], case['file_chi_col'])
